@@ -8,8 +8,8 @@ BASE = "cd /repo && /venv/bin/python -m pytest -ra -q -p no:cacheprovider --time
 CHECKS = {
  'C11': dict(cat='exploration', engine='BEX',
    technique='exhaustive enumeration of the full 41 472-point option product on the real compute_emissions, outcome classification + independent re-summation',
-   text='Every one of the 41 472 documented option combinations is executed (quick: one synthetic trajectory; thorough: two) and classified as balanced inventory / named refusal / internal error; exhaustive over configurations, so the universal quantifier over configurations is decided outright for the trajectories used.',
-   note='shipped sample performance model, engine entry and fuel; lattice trajectories only; numpy/pydantic trusted', ref='DESIGN.md §4 C11'),
+   text='Every one of the 41 472 documented option combinations is executed five times over (a synthetic trajectory, the same with phase counts never assigned, a model with mutable LTO data, option values in capitals, the second shipped fuel; thorough: two more trajectories), each computed twice under the same loaded configuration, and classified as balanced inventory / named refusal / internal error; exhaustive over configurations, so the universal quantifier over configurations is decided outright for the trajectories used.',
+   note='shipped sample performance model and engine entry, both shipped fuels; lattice trajectories only; numpy/pydantic trusted', ref='DESIGN.md §4 C11'),
 
  'C06': dict(cat='exploration', engine='BEX',
    technique='bounded-exhaustive enumeration of table structures x row orders x node/interior/edge/outside queries, malformed tables and generated PTF files against a dict-of-nodes bilinear reference',
@@ -38,13 +38,13 @@ CHECKS = {
 
  'C20': dict(cat='model_checking', engine='SCHED',
    technique='stateless exploration of all thread schedules up to a preemption bound (iterative context bounding) of real threads under a sys.settrace-driven deterministic scheduler, opcode granularity in the constructor',
-   text='Every schedule of two (thorough: three) real threads constructing a first store with at most 1 (thorough: 2-3) preemptions is executed on the real constructor; scheduling points at every line of store.py and every bytecode of TrajectoryStore.__init__; invariant: at most one owner thread, losers get RuntimeError, no deadlock; plus every sequence of <=2 (3) owner-thread operations (incl. failing opens and subclass instances) followed by an attempt from another thread.',
+   text='Every schedule of two (thorough: three) real threads constructing a first store with at most 1 preemption at bytecode granularity and 2 at line granularity (thorough: 2-3) is executed on the real constructor; scheduling points at every line of every source file of the library and every bytecode of TrajectoryStore.__init__; invariant: at most one owner thread, losers get RuntimeError, no deadlock; plus every sequence of <=2 (3) owner-thread operations (incl. failing opens, subclass instances and a fork) followed by an attempt from another thread.',
    note='CPython tracing semantics trusted; bound = preemptions, executions run to completion; locks replaced by cooperative wrappers', ref='DESIGN.md §4 C20'),
 
  'C17': dict(cat='model_checking', engine='HIST',
    technique='enumeration of all sequences of successful/failing flights on one real builder instance to a depth bound (undeduplicated) plus BFS deduplicated by a fingerprint of the builder attributes; differential oracle vs brand-new builder',
    text='Every sequence of the event alphabet (valid missions, explicit starting mass, unknown airports, airport above cruise level, out-of-envelope mass, weather variants) up to the depth bound is flown on one builder per option set; each flight must be bit-identical to a fresh builder and each refusal must carry the original reason.',
-   note='50-point phases; depth 2-3 (thorough 3-4) undeduplicated, BFS to depth 3 (6); three performance models, iteration / low-heating-value / weather builders', ref='DESIGN.md §4 C17'),
+   note='50-point phases; depth 2-3 (thorough 3-4) undeduplicated, BFS to depth 3 (6); four performance models (one derived by model_copy after use), iteration / low-heating-value / weather builders; tolerance staircase: mass_iter_reltol next to every residual the iteration produces', ref='DESIGN.md §4 C17'),
 
  'C01': dict(cat='exploration', engine='BEX',
    technique='bounded-exhaustive enumeration of trajectory shapes x all phase windows x all zero/positive burn patterns x fuels x LTO/APU/EDB data x classes x configuration spine, full supported-option product, back-to-back pairs on shared objects; independent re-summation oracle',
